@@ -381,6 +381,8 @@ async fn corruption_sweep(mon: &Monitor, rng: &mut Rng, path: &Path, cur: &str, 
 
 fn main() {
     let mon = Monitor::new("C18", "fault_enumeration");
+    // supplementary sanitizer lanes (thorough tier): built and run alongside the behavioural workload, joined before the verdict
+    let lanes = checks::lanes::start(&mon, &[("asan", "c18", "240"), ("miri", "secmem", "0..6"), ("memcheck", "c18", "300")]);
     mon.set_rule("case = one history step (store / retrieve with current, previous or never-used password / change / clear / reopen, cache state), one overwritten byte of the store file read by a fresh manager, or one crash image around the rename (plus truncated temporary file); distinct by (step kind + password relation + cache state + outcome, byte region + pattern, hook)");
     mon.assume("SecurityLevel::Fast (Argon2 4 MiB, t=1) to afford thousands of derivations; process-death model for the crash images");
     install_callback();
@@ -398,7 +400,6 @@ fn main() {
     });
     checks::pstate::scratch_cleanup();
     // supplementary sanitizer lanes (thorough): corruption sweep under ASan; SecureMemory life-cycle under Miri
-    checks::lanes::run(&mon, "asan", "c18", "45");
-    checks::lanes::run(&mon, "miri", "secmem", "0..4");
+    checks::lanes::join(&mon, lanes);
     mon.finish();
 }
